@@ -338,6 +338,11 @@ func c12TTests(c *Ctx, p *Prog) {
 		{"n1": rat(4, 1), "n2": rat(6, 1), "m1": rat(10, 3), "m2": rat(7, 2), "v1": rat(5, 4), "v2": rat(9, 7)},
 		{"n1": rat(11, 1), "n2": rat(3, 1), "m1": rat(-2, 1), "m2": rat(5, 9), "v1": rat(1, 3), "v2": rat(8, 1)},
 	}
+	// the guards refuse two samples only when BOTH variances are zero: one constant sample is a legal input, and a
+	// formula that is an identity elsewhere may divide by zero there (a ratio of the two squared standard errors)
+	two = append(two,
+		map[string]*big.Rat{"n1": rat(5, 1), "n2": rat(7, 1), "m1": rat(3, 1), "m2": rat(7, 2), "v1": rat(0, 1), "v2": rat(9, 7)},
+		map[string]*big.Rat{"n1": rat(5, 1), "n2": rat(7, 1), "m1": rat(3, 1), "m2": rat(7, 2), "v1": rat(5, 4), "v2": rat(0, 1)})
 	specs := []spec{
 		{name: "TwoSampleTTest", guards: 2, leaf: sampleLeaf, pts: two,
 			dof: func(g func(string) *big.Rat) *big.Rat { return rSub(rAdd(g("n1"), g("n2")), rat(2, 1)) },
